@@ -383,6 +383,8 @@ impl HttpServer {
         // We only iterate over first `event_count` events and discard empty elements
         // at the end of the array.
         for e in events[..event_count].iter() {
+            #[cfg(micro_http_verif)]
+            crate::verif::at_event(e.fd());
             // Check the file descriptor which produced the notification `e`.
             // It could be that we need to shutdown, or have a new connection, or
             // one of our open connections is ready to exchange data with a client.
